@@ -98,6 +98,9 @@ func genOp1(r *simrt.RNG, weights []int) Op {
 	case 1:
 		return Op{K: "gen", A: 1 + r.Intn(4)}
 	case 2:
+		if r.Chance(0.06) {
+			return Op{K: "dhcp0", S: r.Uint64(), A: r.Intn(6)}
+		}
 		return Op{K: "lib", N: pickStr(r, hlib.LibKinds()), S: r.Uint64()}
 	case 3:
 		return Op{K: "parse", N: pickStr(r, hlib.WireKinds()), S: r.Uint64(), A: []int{0, 64, 300, 2000}[r.Pick(40, 30, 25, 5)]}
@@ -109,6 +112,9 @@ func genOp1(r *simrt.RNG, weights []int) Op {
 		e := registry[r.Intn(len(registry))]
 		return Op{K: "lookup", N: randomCase(r, e.name), A: r.Intn(2)}
 	case 7:
+		if r.Chance(0.4) {
+			return Op{K: "use", A: r.Intn(6), S: r.Uint64()}
+		}
 		return Op{K: "mutate", A: r.Intn(64), S: r.Uint64()}
 	}
 	return Op{K: "check"}
@@ -181,7 +187,11 @@ func genC15(seed uint64) *Scenario {
 		for r.Chance(0.45) {
 			switch r.Pick(50, 30, 10, 10) {
 			case 0:
-				sc.Tasks[t].Ops = append(sc.Tasks[t].Ops, Op{K: "mutate", A: r.Intn(64), S: r.Uint64()})
+				if r.Chance(0.4) {
+					sc.Tasks[t].Ops = append(sc.Tasks[t].Ops, Op{K: "use", A: r.Intn(6), S: r.Uint64()})
+				} else {
+					sc.Tasks[t].Ops = append(sc.Tasks[t].Ops, Op{K: "mutate", A: r.Intn(64), S: r.Uint64()})
+				}
 			case 1:
 				e := registry[r.Intn(8)] // hot names: collisions between tasks
 				o := r.Intn(n)
